@@ -36,9 +36,18 @@ def minParen (T : Table) : Int → Expr → Expr
   | _, .idx p k => .idx (wrapPrefix (minParen T 0 p)) (minParen T 0 k)
   | _, .call p as => .call (wrapPrefix (minParen T 0 p)) (minParenArgs T as)
   | _, .mcall p as => .mcall (wrapPrefix (minParen T 0 p)) (minParenArgs T as)
+  | _, .table fs => .table (minParenFields T fs)
+  | _, .closure n va => .closure n va
 def minParenArgs (T : Table) : Args → Args
   | .nil => .nil
   | .cons e r => .cons (minParen T 0 e) (minParenArgs T r)
+def minParenFields (T : Table) : Fields → Fields
+  | .nil => .nil
+  | .cons f r => .cons (minParenField T f) (minParenFields T r)
+def minParenField (T : Table) : Field → Field
+  | .pos e => .pos (minParen T 0 e)
+  | .named e => .named (minParen T 0 e)
+  | .keyed k e => .keyed (minParen T 0 k) (minParen T 0 e)
 end
 
 mutual
@@ -53,9 +62,18 @@ def erase : Expr → Expr
   | .idx p k => .idx (erase p) (erase k)
   | .call p as => .call (erase p) (eraseArgs as)
   | .mcall p as => .mcall (erase p) (eraseArgs as)
+  | .table fs => .table (eraseFields fs)
+  | .closure n va => .closure n va
 def eraseArgs : Args → Args
   | .nil => .nil
   | .cons e r => .cons (erase e) (eraseArgs r)
+def eraseFields : Fields → Fields
+  | .nil => .nil
+  | .cons f r => .cons (eraseField f) (eraseFields r)
+def eraseField : Field → Field
+  | .pos e => .pos (erase e)
+  | .named e => .named (erase e)
+  | .keyed k e => .keyed (erase k) (erase e)
 end
 
 mutual
@@ -70,9 +88,18 @@ def Valid : Expr → Prop
   | .idx p k => Valid p ∧ Valid k
   | .call p as => Valid p ∧ ValidArgs as
   | .mcall p as => Valid p ∧ ValidArgs as
+  | .table fs => ValidFields fs
+  | .closure _ _ => True
 def ValidArgs : Args → Prop
   | .nil => True
   | .cons e r => Valid e ∧ ValidArgs r
+def ValidFields : Fields → Prop
+  | .nil => True
+  | .cons f r => ValidField f ∧ ValidFields r
+def ValidField : Field → Prop
+  | .pos e => Valid e
+  | .named e => Valid e
+  | .keyed k e => Valid k ∧ Valid e
 end
 
 end Climb
